@@ -1248,19 +1248,19 @@ class Unit:
     @lru_cache(maxsize=None)
     def as_ratio(self) -> Tuple["Unit", "Unit"]:
         """Returns this unit, split into a numerator and denominator"""
-        numerator, denominator = self.dimension.as_ratio()
+        numerator = {u: e for u, e in self.factors.items() if e >= 0} or {One: 1}
+        denominator = {u: -e for u, e in self.factors.items() if e < 0} or {One: 1}
         return (
-            Unit(
-                self.prefix,
-                {u: e for u, e in self.factors.items() if e >= 0} or {One: 1},
-                numerator,
-            ),
-            Unit(
-                IdentityPrefix,
-                {u: -e for u, e in self.factors.items() if e < 0} or {One: 1},
-                denominator,
-            ),
+            Unit(self.prefix, numerator, self._dimension_of(numerator)),
+            Unit(IdentityPrefix, denominator, self._dimension_of(denominator)),
         )
+
+    @classmethod
+    def _dimension_of(cls, factors: Mapping["Unit", int]) -> Dimension:
+        dimension = Number
+        for unit, exponent in factors.items():
+            dimension = dimension * unit.dimension**exponent
+        return dimension
 
 
 @total_ordering
